@@ -31,7 +31,7 @@ def generate(reg, key):
     obls = eng.verify()
     info = dict(key=key, module=c.module, qualname=c.qualname, hash=extract.fn_hash(fn), paths=eng.n_paths,
                 normal_paths=eng.n_normal, inlined=sorted(set(eng.inlined)), used_schemas=sorted(set(eng.assumed)),
-                lineno=fn.lineno)
+                lineno=fn.lineno, callees=sorted(eng.callees))
     return obls, info
 
 
@@ -58,5 +58,6 @@ def generate_lemma(reg, c):
         all_obls += eng.obls
     eng.obls = all_obls
     info = dict(key=c.key, module=None, qualname=c.key, hash="lemma", paths=1, normal_paths=1, inlined=[],
-                used_schemas=sorted(set(eng.assumed)) + sorted(set(getattr(eng, "used_lemmas", []))), lineno=0)
+                used_schemas=sorted(set(eng.assumed)) + sorted(set(getattr(eng, "used_lemmas", []))), lineno=0,
+                callees=sorted(eng.callees))
     return eng.obls, info
